@@ -125,6 +125,9 @@ func GenNICase(r *rand.Rand) *NICase {
 		if r.Intn(3) == 0 {
 			t.Vars = append(t.Vars, shv("W", "echo w"))
 		}
+		if r.Intn(3) == 0 {
+			t.Vars = append(t.Vars, shtv("T1", "echo t-", "VR"))
+		}
 		if r.Intn(2) == 0 {
 			t.Env = append(t.Env, lit("VQ", fmt.Sprintf("q%d", r.Intn(3))))
 		}
@@ -153,7 +156,8 @@ func GenNICase(r *rand.Rand) *NICase {
 }
 
 func perTaskGlobals() []Entry {
-	return []Entry{tmplv("LOG", "logs/", "TASK", ".log"), tmplv("AL", "al-", "ALIAS", ""), shv("STAMP", "echo stamp-of-$TASK")}
+	return []Entry{tmplv("LOG", "logs/", "TASK", ".log"), tmplv("AL", "al-", "ALIAS", ""), shv("STAMP", "echo stamp-of-$TASK"),
+		shtv("BANNER", "echo banner-of-", "TASK")}
 }
 
 func perTaskGlobalEnv() []Entry {
@@ -173,7 +177,7 @@ func present(es []Entry, names ...string) []string {
 }
 
 // the Taskfile-level names every plain task probes because their value depends on the task
-func (c *NICase) pgVars() []string { return present(c.GVars, "LOG", "AL", "STAMP") }
+func (c *NICase) pgVars() []string { return present(c.GVars, "LOG", "AL", "STAMP", "BANNER") }
 func (c *NICase) pgEnv() []string  { return present(c.GEnv, "GT", "GS") }
 
 func specials(name string) []KV { return []KV{{"TASK", name}, {"ALIAS", name}} }
@@ -189,7 +193,8 @@ func (c *NICase) yaml() string {
 	}
 	sb.WriteString("tasks:\n")
 	sb.WriteString("  m:\n    cmds:\n      - for: {matrix: {X: {ref: \".L\"}}}\n        cmd: " + yq("echo \"@m|i|{{.TAG}}|{{.ITEM.X}}|\"") + "\n")
-	sb.WriteString("  leaf:\n    vars: {R: {sh: " + yq("echo r$V") + "}}\n    cmds: [" + yq("echo \"@leaf|c|{{.TAG}}|{{.R}}|\"") + "]\n")
+	sb.WriteString("  leaf:\n    vars: {R: {sh: " + yq("echo r$V") + "}, R2: {sh: " + yq("echo hello-{{.V}}") + "}}\n    cmds: [" +
+		yq("echo \"@leaf|c|{{.TAG}}|{{.R}}|\"") + ", " + yq("echo \"@leaf|d|{{.TAG}}|{{.R2}}|\"") + "]\n")
 	sb.WriteString("  dtask:\n    env: {DTAG: " + yq("{{.TAG}}") + "}\n    cmds:\n")
 	sb.WriteString("      - defer: " + yq("echo \"@dfr|d|$DTAG|{{.NAME}}|\"") + "\n")
 	sb.WriteString("      - defer: {task: report, vars: {WHO: " + yq("{{.NAME}}") + ", RTAG: " + yq("{{.TAG}}") + "}}\n")
@@ -275,8 +280,47 @@ func (l *lockedBuf) String() string {
 	return l.b.String()
 }
 
+func varItems(vs *ast.Vars) []string {
+	var items []string
+	for k, v := range vs.All() {
+		sh := "<nil>"
+		if v.Sh != nil {
+			sh = *v.Sh
+		}
+		items = append(items, fmt.Sprintf("%s value=%v sh=%s ref=%s", k, v.Value, sh, v.Ref))
+	}
+	return items
+}
+
+// dumpDefs: the parts of the shared definitions (e.Taskfile) that compilations read and must not write:
+// every variable (value, sh: text, ref) of the Taskfile-level vars / env, of every task's vars, env,
+// include vars and included-Taskfile vars, and of every call's vars; every field of defer: entries;
+// the rows of for: matrix:.
 func dumpDefs(e *task.Executor) []Row {
 	var rows []Row
+	add := func(key string, vs *ast.Vars) {
+		if vs != nil && vs.Len() > 0 {
+			rows = append(rows, Row{Key: key, Items: varItems(vs)})
+		}
+	}
+	add("taskfile/vars", e.Taskfile.Vars)
+	add("taskfile/env", e.Taskfile.Env)
+	for name, t := range e.Taskfile.Tasks.All(nil) {
+		add(name+"/vars", t.Vars)
+		add(name+"/env", t.Env)
+		add(name+"/includevars", t.IncludeVars)
+		add(name+"/includedtaskfilevars", t.IncludedTaskfileVars)
+		for ci, cmd := range t.Cmds {
+			if cmd != nil && !cmd.Defer {
+				add(fmt.Sprintf("%s/%d/callvars", name, ci), cmd.Vars)
+			}
+		}
+		for di, dep := range t.Deps {
+			if dep != nil {
+				add(fmt.Sprintf("%s/dep%d/callvars", name, di), dep.Vars)
+			}
+		}
+	}
 	for name, t := range e.Taskfile.Tasks.All(nil) {
 		for ci, cmd := range t.Cmds {
 			if cmd != nil && cmd.Defer {
@@ -384,7 +428,7 @@ func (c *NICase) outputsOf(out, root string, alone bool) Outputs {
 			if len(f) >= 5 && f[0] == "m" && f[1] == "i" && f[2] == t.Tag {
 				o.Items = append(o.Items, f[3])
 			}
-			if len(f) >= 5 && f[0] == "leaf" && f[1] == "c" && f[2] == t.Tag {
+			if len(f) >= 5 && f[0] == "leaf" && (f[1] == "c" || f[1] == "d") && f[2] == t.Tag {
 				o.Vars = append(o.Vars, f[3])
 			}
 		}
@@ -495,8 +539,8 @@ func (c *NICase) ctxs(order []int) ([]Ctx, int) {
 			}
 			if t.Leaf {
 				xs = append(xs, Ctx{Name: "leaf", Special: specials("leaf"), GEnv: c.GEnv, GVars: gv,
-					Call: []Entry{lit("TAG", t.Tag), lit("V", t.Val)}, TVars: []Entry{shv("R", "echo r$V")},
-					RootDir: "ROOT", TaskDir: "ROOT", VProbes: []string{"R"}})
+					Call: []Entry{lit("TAG", t.Tag), lit("V", t.Val)}, TVars: []Entry{shv("R", "echo r$V"), shtv("R2", "echo hello-", "V")},
+					RootDir: "ROOT", TaskDir: "ROOT", VProbes: []string{"R", "R2"}})
 				continue
 			}
 			xs = append(xs, Ctx{Name: "m", Special: specials("m"), GEnv: c.GEnv, GVars: gv,
@@ -556,7 +600,7 @@ func (c *NICase) CoqWithDefs(in *Interner) string {
 	group := func(xs []Ctx) string {
 		items := make([]string, len(xs))
 		for i, x := range xs {
-			items[i] = in.Def("tctx", coqCtxShared(x, ge, gv))
+			items[i] = in.Def("tctx", coqCtxShared(in, x, ge, gv))
 		}
 		return in.Def("list tctx", cg.List(items))
 	}
@@ -583,7 +627,7 @@ func (c *NICase) CoqWithDefs(in *Interner) string {
 		"nr_alone := %s; nr_ctx := %s; nr_defs_before := %s; nr_defs_after := %s |}",
 		cg.List(groups), fixed, tg, ti, cg.Bool(c.Parallel || c.Combine == "deps"), aname, ti,
 		in.Def("outputs", coqOutputs(c.Alone)), in.Def("outputs", coqOutputs(c.Ctx)),
-		in.Def("rows", coqRows(c.DefsBefore)), in.Def("rows", coqRows(c.DefsAfter)))
+		coqRowsShared(in, c.DefsBefore), coqRowsShared(in, c.DefsAfter))
 }
 
 // StressMatrix: concurrent CompiledTask calls of the matrix task with different
